@@ -1,6 +1,6 @@
 """C03 - exactly the taxable transactions are taxed, each once and in full.
 
-All sequences over the 20 (table, type) symbols after a covering purchase; an independent taxability table in this
+All sequences over the 21 (table, type) symbols after a covering purchase; an independent taxability table in this
 file decides what must appear in taxable_event_set / gain_loss_set.
 """
 from __future__ import annotations
@@ -30,6 +30,7 @@ SYMBOLS = (
     + [H.B(3, 1, typ=t) for t in NON_EARN_IN]
     + [H.S(1, typ=t, price=5) for t in OUT]
     + [H.S(1, fee=1, typ="SELL", price=5)]
+    + [H.S(1, typ="FEE", price=0)]  # a fee paid in a coin quoted at 0 (accepted for fee-typed rows): worth nothing, a disposal all the same
     + [H.M(2, 1, price=7), H.M(2, 0, price=7)]
     + [H.M(2, 1, src=0, dst=0, price=7)]  # a fee-bearing transfer from an account to itself is still a disposal of the fee
 )
@@ -268,7 +269,7 @@ def main(tier: str, budget_s: Optional[float] = None) -> int:
         "evaluations": total.get("evaluations"),
         "distinct_nontrivial": total.get("distinct_nontrivial"),
         "rule": (
-            "all sequences over the 20 (table, type) symbols after a covering purchase (depth counts the purchase), one day "
+            "all sequences over the 21 (table, type) symbols after a covering purchase (depth counts the purchase), one day "
             "apart, plus every placement of one (thorough: two) same-instant steps, x methods; distinct by construction; "
             "non-trivial = contains a taxable row and no symbol twice"
         ),
